@@ -11,7 +11,19 @@ Reference (written from the property text, independent of split_into_bins.py):
   * IterateBins: every cell exactly once, context.bin.edges are that cell's ((low, high), ...) and the context is the
     cell's own one (not shared with another cell); MapBins: same edges and shape, cell k-th = k-th result of a private
     copy of the sequence run on [cell].
-Values carry a unique tag, so order and attribution are visible in the results."""
+Values carry a unique tag, so order and attribution are visible in the results.
+
+Reading decisions:
+  * DESIGN section 6 row 20 (a compute() that is not preceded by an in-range fill — e.g. the second request of
+    FillRequest(SplitIntoBins(..), reset=False) after an outside value — adds compose: [type, type, ...] of a typed
+    argument variable to context.variable) IS counted against the clause "with context.variable describing the argument
+    variable": the yielded description is that of a composition arg o arg which does not exist.  It has its own id
+    (.../context.variable-nests-compose-of-itself), distinct from any other wrong context.variable.
+  * nothing is demanded of the other keys of the yielded context, of the order in which IterateBins enumerates the
+    cells, or of MapBins' context; when the flow values already carry a context.variable only the argument variable's
+    own keys are compared (composition rules are C14's); when a cell's private analysis raises on its sub-flow (Mean
+    of nothing) the same exception from compute() is the expected behaviour; the number of histograms is the number
+    of results of the cell that yields fewest (only those hold a result of every cell)."""
 import bisect
 import copy
 import itertools
@@ -426,7 +438,7 @@ def check_sib(edges, flowj, aname, vname, twice=False):
 
     # values outside the edges are ignored: the yielded values do not depend on them
     inside = [item for item in flowj if cell_of(item, vname, edges) is not None]
-    if len(inside) != len(flowj) and not bad:
+    if len(inside) != len(flowj) and not [f for f, _ in bad if not f.endswith("/context.variable-nests-compose-of-itself")]:
         try:
             _, res2, _, _ = guarded(run_real, edges, inside, aname, vname, 1)
             if repr(res2[0]) != repr(res[0]):
@@ -871,7 +883,7 @@ def _body(R):
     T = R.thorough
 
     # ---- 1-d exhaustive
-    L1 = 3
+    L1 = 4 if T else 3
     an1 = AN_NAMES if T else ["collect3", "mutctx", "dupfilter", "store", "pre-sum-post"]
     R.scope("SplitIntoBins.fill/compute, 1-d",
             "all %d strictly increasing edge lists over {0,1,2,3} (2..4 edges) x all flows of length 0..%d over the coordinates %r "
@@ -935,7 +947,7 @@ def _body(R):
         R.exhaustive = False
 
     # ---- random float edges, longer flows
-    nr = 6000 if T else 500
+    nr = 12000 if T else 500
     R.scope("SplitIntoBins.fill/compute, random",
             "%d random cases: 1-d/2-d float edges (2..6 per axis; integer/uniform/non-uniform/0.1-steps), flows of 0..14 values at "
             "edges, their nextafter neighbours, the last edge, outside and inside; contexts none / nested / with an older "
@@ -960,7 +972,7 @@ def _body(R):
         sib_case(R, edges, flowj, aname, vname, twice=(rng.random() < 0.33))
 
     # ---- histories
-    nh = 1500 if T else 150
+    nh = 4000 if T else 150
     R.scope("SplitIntoBins fill/compute histories",
             "%d random histories of 2..4 blocks (0..4 fills, then compute()) — the way FillRequest(reset=False) drives the element; "
             "integer edges in 1-d/2-d; every compute compared with private per-cell sequences that lived through the same history" % nh, False)
